@@ -474,6 +474,41 @@ def run(ctx):
     from .. import core as _core
     _core.run_proxied(ctx, _c16, 'R01o', ('R16g',))
 
+    # ---- R01p: a legacy args parser reports (arguments, start, length) with start + length = where it stopped
+    ctx.rule('R01p', 'the (arguments, pos, len) triple of a pylatexenc-2 arguments parser is consistent: pos + len does not '
+                     'depend on pos (it is the position reached), so the macro node ends where its arguments end', 3)
+    for modn_ in ('pylatexenc.macrospec._pyltxenc2_argparsers._verbatimargsparser',
+                  'pylatexenc.macrospec._pyltxenc2_argparsers._base'):
+        lm_ = repo.mod(modn_)
+        for q_, f_ in sorted(lm_.functions.items()):
+            if not q_.endswith('.parse_args'):
+                continue
+            env_ = affine.single_assign_env(f_)
+            for r_ in [x for x in iter_own(f_) if isinstance(x, ast.Return) and isinstance(x.value, ast.Tuple)
+                       and len(x.value.elts) == 3]:
+                p_, l_ = r_.value.elts[1], r_.value.elts[2]
+                try:
+                    tot = affine.norm(ast.BinOp(left=p_, op=ast.Add(), right=l_), env_)
+                    pn = affine.norm(p_, env_)
+                except affine.NotAffine:
+                    ctx.unknown('R01p', lm_, r_, 'start/length not affine', construct='%s: %s' % (q_, short(r_, 50)))
+                    continue
+                left = sorted(k for k in pn[1] if tot[1].get(k, 0) != 0)
+                ctx.decide('R01p', not left, lm_, r_, '%s: pos + len = %s' % (q_, affine.show(tot)),
+                           '%s returns a start and a length whose sum %s still depends on the start (%s): the length was '
+                           'measured from another position than the one returned, so the macro node ends inside or past '
+                           'its own arguments and overlaps the next node' % (q_, affine.show(tot), left),
+                           construct='%s: %s' % (q_, short(r_, 50)))
+    # ---- R01q: a token reader starts at the beginning of the string
+    ctx.rule('R01q', 'LatexTokenReader.__init__ starts at position 0 whatever the string contains (nothing is skipped '
+                     'silently: the nodes cover the whole input)', 1)
+    tri_ = trm.methods('LatexTokenReader').get('__init__')
+    for st_ in [x for x in iter_own(tri_) if isinstance(x, ast.Assign) and any(is_self_attr(t_, '_pos') for t_ in x.targets)]:
+        ctx.decide('R01q', isinstance(st_.value, ast.Constant) and st_.value.value == 0, trm, st_,
+                   'the reader starts at 0', 'the reader starts at %s: characters before that position (a byte-order mark) '
+                   'belong to no token and no node, so the top-level nodes no longer reproduce the input' % short(st_.value, 50),
+                   construct='LatexTokenReader.__init__: start position')
+
     return 'other', (
         'Span algebra at every construction site: for each chars node pos_end - pos - len(chars) '
         'normalises to 0 (affine normaliser with single-assignment inlining and the token-span '
